@@ -38,7 +38,9 @@ LEVEL_TEXT = ("Theorems over every world (any package layout, any import-time be
 LEVEL_NOTE = ("Partial by nature: that compile(..., PyCF_ONLY_AST) / ast.parse execute nothing is CPython's contract, covered only by the runtime "
               "observation (sentinel files, sys.modules) — the theorems cover Griffe's decision logic and the restore protocol. The finder (which files "
               "belong to a package) is input to the model (C14's subject); the harness derives it from the generated layout. Which packages alias "
-              "resolution asks for is left arbitrary in the theorems (any sequence); the gates are tied separately. Faults while walking an imported "
+              "resolution asks for is left arbitrary in the theorems (any sequence after the root load, and any sequence nested in it where "
+              "_load_package expands wildcards before merging stubs; re-entered packages are modelled without a nested phase of their own); "
+              "the gates are tied separately. Faults while walking an imported "
               "module other than SystemExit escape load unconverted (modelled as the code is; outside the property's fault alphabet). os._exit, "
               "threads and code that keeps a reference to the original sys.path list object are outside the model. C15_sys_path_restored needs "
               "non-empty search paths when nothing is found on disk (sys_path() without paths is a no-op; sharpness shown by an Example).")
@@ -86,7 +88,7 @@ def mk_mod(parts, kind, **kw):
     return m
 
 
-def mk_pkg(name, sp, kind, mods, deps=(), guard=False, all_=True):
+def mk_pkg(name, sp, kind, mods, deps=(), guard=False):
     return {"name": name, "sp": sp, "kind": kind, "mods": mods, "deps": list(deps), "guard": guard}
 
 
@@ -1152,7 +1154,7 @@ def explore(ctx):
     check_tables(ctx)
     tabs = ctx.model([["tables"]])[0]
     ctx.notes.append("generated tables: " + json.dumps(tabs))
-    trees, cases, batch = run_all(ctx, ctx.budget(120, 2500), ctx.budget(4, 6), ctx.budget(4, 6))
+    trees, cases, batch = run_all(ctx, ctx.budget(250, 2500), ctx.budget(4, 6), ctx.budget(4, 6))
     # every branch of the model must have been reached
     need = {"mode": ["static", "allow", "force", "allow+force"], "result": ["ok", "LoadingError", "ModuleNotFoundError", "ImportError", "FileNotFoundError"],
             "model_branch": ["orphan", "skip.so", "skip.py", "skip.pyc"]}
